@@ -47,9 +47,23 @@ Theorem C12_decode : forall (rows : list (list spx)) (w : nat),
       sixel_draw rows orders = Ok bytes /\ sixel_decode bytes = Some pic /\
       picture_ok (N.of_nat w) (N.of_nat (height6 rows)) pic = true /\
       forall xn yn, (xn < w)%nat -> (yn < height6 rows)%nat ->
-        exists c, nth_error (nth yn q []) xn = Some c /\
-                  pixel_at (p_events pic) (N.of_nat xn) (N.of_nat yn) = Some (reg_color scale pal c).
+        exists c p, nth_error (nth yn q []) xn = Some c /\ nth_error pal (N.to_nat c) = Some p /\
+                    pixel_at (p_events pic) (N.of_nat xn) (N.of_nat yn) = Some (map3 scale p).
 Proof. exact draw_decodes. Qed.
+
+(* ... including cropped views: Image::crop only changes the Shape over the shared pixel
+   buffer; the handler is given the window `view_rows parent crop` (C07: a Shape view is
+   that window) and everything above holds of the window, wherever it lies in its parent *)
+Theorem C12_decode_view : forall (parent : list (list spx)) crop (w : nat),
+  src_ok (view_rows parent crop) w ->
+  exists pal q,
+    quantize (sixel_eff (view_rows parent crop)) sixel_palette_size sixel_dither = Ok (pal, q) /\
+    (length pal <= 256)%nat /\
+    forall orders, orders_ok q orders = true ->
+    exists bytes pic,
+      sixel_draw (view_rows parent crop) orders = Ok bytes /\ sixel_decode bytes = Some pic /\
+      picture_ok (N.of_nat w) (N.of_nat (height6 (view_rows parent crop))) pic = true.
+Proof. exact draw_decodes_view. Qed.
 
 (* At most 256 distinct colours (below the subsampling threshold): the decoded picture
    equals the source at sixel's 0..100 resolution, pixel for pixel. *)
@@ -74,19 +88,43 @@ Proof. exact distinct100_eff. Qed.
 (* the tables: what is written for a channel is round(100 x / 255), also after the
    reduction applied before quantisation; values never exceed 100 *)
 Theorem C12_channel_scaling : forall x, x < 256 ->
-  scale (pre x) = spec100 x /\ scale x <= 100 /\ pre x < 256.
-Proof. intros x Hx. split; [exact (scale_pre_spec x Hx)|split; [apply scale_le_100|apply pre_byte]]. Qed.
+  scale (pre x) = spec100 x /\ scale x <= 100 /\ pre x < 256 /\
+  sixel_band = 6%nat /\ sixel_code_offset = 63 /\ sixel_palette_size <= 256.
+Proof. exact channel_scaling. Qed.
 
-(* Repeated draws on one handler: while what was drawn fits the cache, a later draw of
-   an image returns exactly the bytes of its first draw, whatever a fresh encoding
-   (under another hash iteration order) would produce. *)
-Theorem C12_repeat : forall limit ds key b i j fresh,
+Definition ex_rows_def : list (list spx) :=
+  [[Opaque (255, 0, 0); Opaque (0, 0, 255)]; [Opaque (255, 0, 0); Opaque (255, 0, 0)];
+   [Opaque (0, 0, 255); Opaque (0, 0, 255)]; [Opaque (255, 0, 0); Opaque (0, 0, 255)];
+   [Opaque (255, 0, 0); Opaque (0, 0, 255)]; [Opaque (255, 0, 0); Opaque (0, 0, 255)];
+   [Opaque (9, 9, 9); Transp (1, 2, 3) 7 (4, 5, 6)]].
+
+(* Repeated draws on one handler (`handler_run`: the LRU cache model with the regenerated
+   IMAGE_CACHE_SIZE, keyed by content hash, fresh encodings by sixel_draw under each draw's
+   own hash-map order): while everything drawn fits the cache, a later draw of an image
+   (same key) returns exactly the bytes of its first draw, whatever order a fresh encoding
+   would use now.  Assumes the key identifies the view's content (64-bit FNV hash). *)
+Theorem C12_repeat : forall (ds : list draw_req) i j key rows oi rows' oj b,
+  total (map cache_req ds) <= sixel_cache_limit ->
+  nth_error ds i = Some (key, rows, oi) -> sixel_draw rows oi = Ok b -> b <> [] ->
+  (forall i' d, (i' < i)%nat -> nth_error ds i' = Some d -> fst (fst d) <> key) ->
+  (i < j)%nat -> nth_error ds j = Some (key, rows', oj) ->
+  nth_error (handler_run ds) i = Some b /\ nth_error (handler_run ds) j = Some b.
+Proof. exact repeat_draw. Qed.
+
+(* the cache alone, for any limit: hits return the first bytes while the draws fit *)
+Theorem C12_cache_repeat : forall limit ds key b i j fresh,
   total ds <= limit ->
   nth_error ds i = Some (key, Some b) ->
   (forall i', (i' < i)%nat -> forall f, nth_error ds i' <> Some (key, f)) ->
   (i < j)%nat -> nth_error ds j = Some (key, fresh) ->
   nth_error (hrun limit ([], 0) ds) i = Some b /\ nth_error (hrun limit ([], 0) ds) j = Some b.
 Proof. exact second_draw_identical. Qed.
+
+Example C12_repeat_nonvacuous :
+  handler_run [(7, ex_rows_def, [[0; 1]]); (9, [], []); (7, ex_rows_def, [[1; 0]])]
+  = match sixel_draw ex_rows_def [[0; 1]] with Ok b => [b; []; b] | _ => [] end /\
+  sixel_draw ex_rows_def [[0; 1]] <> sixel_draw ex_rows_def [[1; 0]].
+Proof. split; [vm_compute; reflexivity|vm_compute; discriminate]. Qed.
 
 Check C12_decode : forall (rows : list (list spx)) (w : nat), src_ok rows w ->
   exists pal q, quantize (sixel_eff rows) sixel_palette_size sixel_dither = Ok (pal, q) /\
@@ -95,32 +133,40 @@ Check C12_decode : forall (rows : list (list spx)) (w : nat), src_ok rows w ->
     exists bytes pic, sixel_draw rows orders = Ok bytes /\ sixel_decode bytes = Some pic /\
       picture_ok (N.of_nat w) (N.of_nat (height6 rows)) pic = true /\
       forall xn yn, (xn < w)%nat -> (yn < height6 rows)%nat ->
-        exists c, nth_error (nth yn q []) xn = Some c /\
-                  pixel_at (p_events pic) (N.of_nat xn) (N.of_nat yn) = Some (reg_color scale pal c).
+        exists c p, nth_error (nth yn q []) xn = Some c /\ nth_error pal (N.to_nat c) = Some p /\
+                    pixel_at (p_events pic) (N.of_nat xn) (N.of_nat yn) = Some (map3 scale p).
 
-(* non-vacuity: a 7 x 2 image (one row is cut), two colours, two different strip orders *)
+(* non-vacuity: a 13 x 6 image (two bands, the 13th row is cut), three colours, runs of five
+   equal sixels (the `!5` form), skips, a transparent pixel in a visible row; two different
+   strip orders give different bytes and the same picture *)
+Definition R : spx := Opaque (255, 0, 0).
+Definition B : spx := Opaque (0, 0, 255).
+Definition T : spx := Transp (1, 2, 3) 7 (4, 5, 6).
 Definition ex_rows : list (list spx) :=
-  [[Opaque (255, 0, 0); Opaque (0, 0, 255)]; [Opaque (255, 0, 0); Opaque (255, 0, 0)];
-   [Opaque (0, 0, 255); Opaque (0, 0, 255)]; [Opaque (255, 0, 0); Opaque (0, 0, 255)];
-   [Opaque (255, 0, 0); Opaque (0, 0, 255)]; [Opaque (255, 0, 0); Opaque (0, 0, 255)];
-   [Opaque (9, 9, 9); Transp (1, 2, 3) 7 (4, 5, 6)]].
+  [[R; R; R; R; R; B]; [R; R; R; R; R; B]; [B; B; B; B; B; B]; [R; T; R; R; R; B]; [R; R; R; R; R; B];
+   [R; R; R; R; R; R]; [B; B; B; B; B; R]; [B; B; B; B; B; R]; [B; B; B; B; B; R]; [B; B; B; B; B; R];
+   [B; B; B; B; B; R]; [B; B; B; B; B; T]; [R; B; R; B; R; B]].
 
 Example C12_nonvacuous :
-  src_ok ex_rows 2 /\
-  (forall o, In o [[[0; 1]]; [[1; 0]]] ->
+  src_ok ex_rows 6 /\
+  (forall o, In o [[[0; 1; 2]; [1; 0; 2]]; [[2; 1; 0]; [0; 2; 1]]] ->
      match quantize (sixel_eff ex_rows) sixel_palette_size sixel_dither, sixel_draw ex_rows o with
      | Ok (pal, q), Ok bytes =>
          orders_ok q o &&
          match sixel_decode bytes with
-         | Some p => picture_ok 2 6 p && picture_eq (sixel_src100 ex_rows) p
+         | Some p => picture_ok 6 12 p && picture_eq (sixel_src100 ex_rows) p
          | None => false
          end
      | _, _ => false
      end = true) /\
-  sixel_draw ex_rows [[0; 1]] <> sixel_draw ex_rows [[1; 0]].
+  sixel_draw ex_rows [[0; 1; 2]; [1; 0; 2]] <> sixel_draw ex_rows [[2; 1; 0]; [0; 2; 1]] /\
+  (* the first strip of the first order: colour 0 = the transparent pixel's composite, one sixel in column 1 *)
+  (exists rest, sixel_draw ex_rows [[0; 1; 2]; [1; 0; 2]] = Ok rest /\
+                existsb (fun b => b =? 33) rest = true).       (* a `!` repeat introducer occurs *)
 Proof.
-  split; [|split].
+  split; [|split; [|split]].
   - repeat split; try (cbn; lia); repeat constructor.
   - intros o [<-|[<-|[]]]; vm_compute; reflexivity.
   - vm_compute. discriminate.
+  - eexists. split; [vm_compute; reflexivity|vm_compute; reflexivity].
 Qed.
